@@ -147,12 +147,16 @@ Kind(b) == IF b.upd # "" THEN "UPDATE"
 Complete(b) == /\ (b.sel # <<>> \/ b.ins # "" \/ b.del \/ b.upd # "")
                /\ (b.ins # "" => (b.sel # <<>> \/ b.vals # <<>>))
                /\ (b.upd # "" => b.sets # <<>>)
+               /\ ((b.del /\ b.upd = "") => b.from # <<>>)     \* DELETE needs its FROM (the code renders "DELETE WHERE ..." without it)
 
 HasSubqFrom(b) == b.from # <<>> /\ SrcTab(b.from[1]).kind = "subq"
+\* WHERE / PREWHERE mention a table that is not one of the statement's own sources (decided against the CURRENT
+\* sources: independent of whether where() came before or after from_() / update())
+ForeignNow(b) == (\E i \in DOMAIN b.whr : Foreign(b, b.whr[i])) \/ (\E i \in DOMAIN b.pre : Foreign(b, b.pre[i]))
 NeedsNS(b) == \/ b.joins # <<>>
               \/ Len(b.from) > 1
               \/ HasSubqFrom(b)
-              \/ b.foreign
+              \/ ForeignNow(b)
               \/ (b.upd # "" /\ b.from # <<>>)
 
 (***************************************************************************)
